@@ -2,6 +2,7 @@
 from valib.core import kids, strip, walk, walk_with_parents, expr_str, loc_str, callee_name, call_args, ConstEval, ref_name
 from valib import absint as ABS
 from valib import scan as SC
+from valib import strb as SB
 from valib import pipeline as PL
 from valib import chunk as CH
 
@@ -27,6 +28,7 @@ def run(chk, prog, tier):
     null_rule(chk, prog)
     term_rule(chk, prog, res)
     roles = PL.Roles(prog)
+    strb_rule(chk, prog, res)
     # termination of the per-line loop: the scanner makes progress on every text, the driver advances by what was consumed
     SC.progress_rule(chk, prog, roles)
     SC.driver_advance_rule(chk, prog, roles)
@@ -44,12 +46,50 @@ def run(chk, prog, tier):
         "a C string is zero-initialised and never written in its last byte, every divisor excludes 0, the offset used as "
         "write position is non-negative; plus keyword clearing lengths, NULL tests of tokeniser results (3 audited sites), "
         "bounded recursion, chunk-size division guarded by the mode invariant, and a fresh zeroed per-line record. "
-        "NOT decided: pointer look-around on NUL-terminated strings (p[i+2], p[i-2]) beyond the audited premises, signed "
-        "overflow in value arithmetic, libc preconditions. (PROGRESS/ADVANCE) termination of the per-line loop: a prefix-concrete "
+        "(STRB) a string-length-relative abstract interpretation (cursor <= strlen(S)+c relations from character tests, "
+        "first/last-character sets, scanned-prefix sets, context-sensitive over call sites, callee outcomes kept apart per "
+        "constant result and per struct field they are stored to) discharges every read, write and pointer advance through a "
+        "pointer into a NUL-terminated string: mem[i+/-k], imme[2], mem[len-1], pointer++, mem+index. NOT decided: signed "
+        "overflow in value arithmetic, libc preconditions other than string arguments. (PROGRESS/ADVANCE) termination of the per-line loop: a prefix-concrete "
         "abstract interpretation of the line parser and its filter (first two characters fixed per character class, rest unknown) shows "
         "that every non-failing call consumes at least one character whenever the text is not at its NUL, and the driver loop "
         "advances its cursor by exactly that count, unconditionally, while the character under it is not NUL.")
     chk.assumptions += ["sentinel-terminated const tables are covered by T1/T4 (C01) and SUCC (C05), not by IDX"]
+
+
+def strb_rule(chk, prog, abs_res):
+    """every read / write / pointer advance through a pointer into a NUL-terminated string stays within the string"""
+    res = SB.run_world(prog)
+    chk.analysed["strb_contexts"] = {k: v for k, v in sorted(res["contexts"].items()) if k in res["need"]}
+    absok = {}
+    for o in abs_res["obligations"]:
+        if o["kind"] == "IDX" and o["ok"]:
+            absok.setdefault((o["fn"], o["where"]), []).append(o["key"])
+    unreached = sorted(fn for fn in res["need"] if fn not in res["contexts"])
+    for fn in unreached:
+        chk.broken("STRB", "STRB/unreached/%s" % fn, loc_str(prog.fn(fn)),
+                   "every function that reads through a string pointer is reached from a public entry point by the string analysis", fn)
+    n = 0
+    for key, v in sorted(res["sites"].items()):
+        n += 1
+        oid = "STRB/%s/%s/%s@%s" % (v["kind"], v["fn"], v["text"][:40], v["where"])
+        what = {"read": "the character read is inside the string or its terminator",
+                "write": "the store stays strictly inside the string (or inside the fixed array the pointer is bound to)",
+                "advance": "the pointer is advanced at most to the terminator"}[v["kind"]]
+        if v["ok"]:
+            chk.ok("STRB", oid, v["where"], what)
+        elif v["kind"] == "write" and any(v["text"] in k for k in absok.get((v["fn"], v["where"]), [])):
+            chk.ok("STRB", oid, v["where"], what + " - capacity-bound: discharged by the interval engine (%s)" % absok[(v["fn"], v["where"])][0])
+        else:
+            chk.bad("STRB", oid, v["where"], what, v["witness"])
+    recorded = {(v["fn"], v["where"], v["text"]) for v in res["sites"].values()}
+    for fn, nodes in sorted(res["need"].items()):
+        for m in nodes:
+            k = (fn, loc_str(m), expr_str(m))
+            if k not in recorded and fn not in unreached:
+                chk.broken("STRB", "STRB/unvisited/%s/%s@%s" % (fn, k[2][:40], k[1]), k[1],
+                           "every subscript / dereference of a string pointer is visited by the string analysis", "%s in %s" % (k[2], fn))
+    chk.floor("string-pointer accesses", n, 90)
 
 
 def kw_rule(chk, prog):
